@@ -38,6 +38,17 @@ func main() {
 				fmt.Println(run.Output)
 			}
 		}
+	case "corpus":
+		// hvc corpus control|value [n]: print corpus programs (debugging aid)
+		var c []string
+		if len(os.Args) > 2 && os.Args[2] == "value" {
+			c = valueCorpus()
+		} else {
+			c = controlCorpus()
+		}
+		for i, t := range c {
+			fmt.Printf("---- %d\n%s\n", i, t)
+		}
 	case "overlay":
 		cmdOverlay(os.Args[2:])
 	default:
